@@ -72,15 +72,17 @@ func genPool(t *rapid.T, faulty bool) PoolCase {
 		return p
 	}
 	delay := rapid.SampledFrom([]int{0, 0, 100, 2000, 20000}).Draw(t, "faultDelayUs")
-	switch rapid.SampledFrom([]string{"provider", "provider", "aggregator", "aggregator", "factory", "bind", "warmup", "sched", "panic"}).Draw(t, "faultKind") {
+	switch rapid.SampledFrom([]string{"provider", "provider", "aggregator", "aggregator", "factory", "bind", "warmup", "sched", "panic", "panic", "panic"}).Draw(t, "faultKind") {
 	case "provider":
 		p.Prov.Fault = rapid.SampledFrom([]string{"before_first", "after_k", "at_end"}).Draw(t, "provFault")
 		p.Prov.FaultK = rapid.IntRange(0, 6).Draw(t, "provK")
 		p.Prov.FaultUs = delay
+		p.Prov.ErrShape = rapid.SampledFrom(errShapes).Draw(t, "provErrShape")
 	case "aggregator":
 		p.Agg.Fault = rapid.SampledFrom([]string{"start", "after_k", "at_end"}).Draw(t, "aggFault")
 		p.Agg.FaultK = rapid.IntRange(0, 6).Draw(t, "aggK")
 		p.Agg.FaultUs = delay
+		p.Agg.ErrShape = rapid.SampledFrom(errShapes).Draw(t, "aggErrShape")
 		p.Gun.Reports = 1
 	case "factory":
 		p.Gun.FactoryErrAt = rapid.IntRange(0, p.Instances).Draw(t, "factoryAt")
@@ -100,9 +102,13 @@ func genPool(t *rapid.T, faulty bool) PoolCase {
 		p.SchedFaultUs = delay
 	case "panic":
 		p.Gun.PanicAtShot = rapid.IntRange(0, 8).Draw(t, "panicAt")
+		p.Gun.PanicKind = rapid.SampledFrom([]string{"", "string", "int", "struct", "bytes", "runtime"}).Draw(t, "panicKind")
 	}
 	return p
 }
+
+// shapes of the error a faulty provider / aggregator returns (fake.shaped)
+var errShapes = []string{"", "", "wrapped", "pkg_wrapped", "own_deadline", "own_deadline"}
 
 func genCase(t *rapid.T) Case {
 	c := Case{}
@@ -281,7 +287,9 @@ func once(c Case, o *vf.Obs, classify bool) error {
 	}
 	// ---- outcome ----
 	isCtxErr := runErr != nil && (errors.Is(runErr, context.Canceled) || strings.Contains(runErr.Error(), context.Canceled.Error()))
-	carriesFault := runErr != nil && (fake.IsInjected(runErr, "") || strings.Contains(runErr.Error(), "injected fault"))
+	carriesFault := runErr != nil && (fake.IsInjected(runErr, "") || strings.Contains(runErr.Error(), "injected fault") ||
+		(strings.Contains(runErr.Error(), "shoot panic") &&
+			(strings.Contains(runErr.Error(), fmt.Sprint(fake.PanicMarkerInt)) || strings.Contains(runErr.Error(), "nil map"))))
 	switch {
 	case runErr == nil:
 		if len(reached) > 0 {
@@ -369,9 +377,16 @@ func once(c Case, o *vf.Obs, classify bool) error {
 		for _, pr := range prs {
 			if pr.prov.FaultReached.Load() {
 				o.Class("provider_fault_" + pr.pc.Prov.Fault)
+				o.Class("err_shape_" + pr.pc.Prov.ErrShape)
+				o.ClassIf(pr.pc.Prov.ErrShape == "own_deadline" && pr.pc.Prov.Fault == "at_end", "own_deadline_error_at_end")
 			}
 			if pr.aggr.FaultReached.Load() {
 				o.Class("aggregator_fault_" + pr.pc.Agg.Fault)
+				o.Class("err_shape_" + pr.pc.Agg.ErrShape)
+				o.ClassIf(pr.pc.Agg.ErrShape == "own_deadline" && pr.pc.Agg.Fault == "at_end", "own_deadline_error_at_end")
+			}
+			if pr.guns.Reached("shot_panic") {
+				o.Class("panic_kind_" + pr.pc.Gun.PanicKind)
 			}
 		}
 		o.ClassIf(cancelInProgress, "cancel_in_progress")
